@@ -222,5 +222,5 @@ def cases(draw):
 
 
 def checks(tier):
-    n = {"quick": 1500, "thorough": 100000}.get(tier, 10)
+    n = {"quick": 5000, "thorough": 100000}.get(tier, 10)
     return [Check("request_sequences", fn_sequence, strategy=cases(), examples=n)]
